@@ -14,6 +14,7 @@
 //   limitations under the License.
 //
 #include "track.h"
+#include "verif_trace.h"
 
 #include <iostream>
 #include <optional>
@@ -207,6 +208,7 @@ namespace Track
 	  id.push_back(byte(id_address_mark));
 	  if (!copy_fm_bytes(bits, thisbit, 6u, &id, verbose))
 	    {
+	      VERIF_EVENT("{\"e\":\"id\",\"enc\":\"FM\",\"ok\":0,\"why\":\"short\",\"pos\":%zu}", thisbit);
 	      if (verbose)
 		{
 		  std::cerr << "Failed to read sector address\n";
@@ -217,6 +219,7 @@ namespace Track
 	  const auto addr_crc = get_crc(id);
 	  if (addr_crc)
 	    {
+	      VERIF_EVENT("{\"e\":\"id\",\"enc\":\"FM\",\"ok\":0,\"why\":\"crc\",\"pos\":%zu}", thisbit);
 	      if (verbose)
 		{
 		  std::cerr << "Sector address CRC mismatch: 0x"
@@ -237,6 +240,7 @@ namespace Track
 	  // id[5] and id[6] are the CRC bytes, and these already got
 	  // included in our evaluation of addr_crc.
 	  id_end = thisbit;
+	  VERIF_EVENT("{\"e\":\"id\",\"enc\":\"FM\",\"ok\":1,\"rec\":%u,\"pos\":%zu}", unsigned(sec.address.record), thisbit);
 	  state = DecodeState::LookingForRecord;
 	}
       else if (state == DecodeState::LookingForRecord)
@@ -254,6 +258,7 @@ namespace Track
 		  std::cerr << "No record follows the ID of sector "
 			    << sec.address << "\n";
 		}
+	      VERIF_EVENT("{\"e\":\"far\",\"enc\":\"FM\",\"rec\":%u,\"pos\":%zu}", unsigned(sec.address.record), thisbit);
 	      thisbit = id_end;
 	      state = DecodeState::LookingForAddress;
 	      continue;
@@ -279,6 +284,7 @@ namespace Track
 	  sec.data.clear();
 	  if (!copy_fm_bytes(bits, thisbit, size_with_crc, &sec.data, verbose))
 	    {
+	      VERIF_EVENT("{\"e\":\"data\",\"enc\":\"FM\",\"res\":\"short\",\"rec\":%u,\"pos\":%zu}", unsigned(sec.address.record), thisbit);
 	      if (verbose)
 		{
 		  std::cerr << "Lost sync in sector data\n";
@@ -296,6 +302,7 @@ namespace Track
 	  auto data_crc = crc.get();
 	  if (data_crc != 0 && !discard_record)
 	    {
+	      VERIF_EVENT("{\"e\":\"data\",\"enc\":\"FM\",\"res\":\"crc\",\"rec\":%u,\"pos\":%zu}", unsigned(sec.address.record), thisbit);
 	      if (verbose)
 		{
 		  std::cerr << "Sector data CRC mismatch: 0x"
@@ -312,6 +319,7 @@ namespace Track
 	  // Resize the sector data downward to drop the CRC.
 	  sec.data.resize(sec_size);
 
+	  VERIF_EVENT("{\"e\":\"data\",\"enc\":\"FM\",\"res\":\"%s\",\"rec\":%u,\"pos\":%zu}", discard_record ? "deleted" : "yield", unsigned(sec.address.record), thisbit);
 	  if (!discard_record)
 	    {
 	      if (verbose)
